@@ -1,13 +1,114 @@
 /-
-Oracle ops for the `wire` family.  Owned by the slice that models it; see AGENT_GUIDE.md.
+Oracle ops for the `wire` family (C01; models: Model/WireDecode.lean, Model/Validate.lean).
+
+Arguments: byte strings are lowercase hex, the empty string is `-`; numbers are decimal.
+Error classes:  ok eof char esc utf8 dup depth ioeof fuel bug
+  (eof = io.ErrUnexpectedEOF, ioeof = io.EOF, char = invalid character (also errMismatchDelim as
+   re-reported by wrapSyntacticError), esc = invalid escape sequence / surrogate pair,
+   utf8 = jsonwire.ErrInvalidUTF8, dup = ErrDuplicateName, depth = errMaxDepth).
+Flags: decimal ValueFlags word (1 = stringNonVerbatim, 2 = stringNonCanonical).
+
+  wire ws h                    → "n"                          ConsumeWhitespace
+  wire lit h                   → "c0 c1 c2 n0 e0 n1 e1 n2 e2" ConsumeNull/False/True, then ConsumeLiteral with null/false/true
+  wire sstr h                  → "n"                          ConsumeSimpleString
+  wire str v h                 → "n flags err"                ConsumeString(validateUTF8 = v)
+  wire strR v off h            → "n flags err"                ConsumeStringResumable(resumeOffset = off)
+  wire snum h                  → "n"                          ConsumeSimpleNumber
+  wire num h                   → "n err"                      ConsumeNumber
+  wire numR off state h        → "n state err"                ConsumeNumberResumable
+  wire unq h                   → "hex err"                    AppendUnquote(nil, h)
+  wire hex4 h                  → "v ok"                       parseHexUint16 (v = 0 when !ok)
+  wire esc16 lower h           → "0|1"                        hasEscapedUTF16Prefix
+  wire trimws h | trimstr h    → "hex"                        TrimSuffixWhitespace / TrimSuffixString
+  wire trimb c h               → "hex"                        TrimSuffixByte (c decimal)
+  wire valid u d h             → "ok" | "E class off"         Value.IsValid framing: ws value ws, u = AllowInvalidUTF8, d = AllowDuplicateNames
+  wire stream u d h            → "count class off"            ReadValue loop: values read, then ioeof at a boundary or the first error
+  wire value u d depth h       → "n class"                    decoderState.consumeValue at the given depth on h (h non-empty)
+  wire all h                   → the replies of  ws | lit | sstr | str 0 | str 1 | snum | num | unq |
+                                 valid 0 0 | valid 0 1 | valid 1 0 | valid 1 1 | stream 0 0 | stream 0 1 | stream 1 0 | stream 1 1
+                                 joined by " | " (one line per input for the bounded-exhaustive sweeps)
+  wire vs h                    → the eight valid/stream replies of `all` only
 -/
 import JsonV.Oracle.Util
+import JsonV.Model.Validate
 
 namespace JsonV.Oracle.Wire
-open JsonV JsonV.Oracle
+open JsonV JsonV.Oracle JsonV.Model.Wire JsonV.Model.Validate
+
+def errStr : Err → String
+  | .ok => "ok" | .eof => "eof" | .invalidChar => "char" | .invalidEscape => "esc" | .invalidUTF8 => "utf8"
+  | .dupName => "dup" | .maxDepth => "depth" | .mismatchDelim => "char" | .ioEOF => "ioeof"
+  | .fuel => "fuel" | .bug => "bug"
+
+def b01 (s : String) : Option Bool := if s == "1" then some true else if s == "0" then some false else none
+
+/-- every op takes the input bytes as its LAST argument; `args` are the arguments before it. -/
+def handleB (op : String) (args : List String) (b : Bytes) : String :=
+  match op, args with
+  | "ws", [] => toString (consumeWhitespace b)
+  | "lit", [] =>
+    let l (lit : Bytes) := let (n, e) := consumeLiteral b lit; s!"{n} {errStr e}"
+    s!"{consumeNull b} {consumeFalse b} {consumeTrue b} {l litNull} {l litFalse} {l litTrue}"
+  | "sstr", [] => toString (consumeSimpleString b)
+  | "str", [v] => match b01 v with
+    | some v => let (n, f, e) := consumeString b v; s!"{n} {f.toNat} {errStr e}"
+    | _ => badArgs
+  | "strR", [v, off] => match b01 v, off.toNat? with
+    | some v, some off => let (n, f, e) := consumeStringResumable b off v; s!"{n} {f.toNat} {errStr e}"
+    | _, _ => badArgs
+  | "snum", [] => toString (consumeSimpleNumber b)
+  | "num", [] => let (n, e) := consumeNumber b; s!"{n} {errStr e}"
+  | "numR", [off, st] => match off.toNat?, st.toNat? with
+    | some off, some st => let (n, st', e) := consumeNumberResumable b off st; s!"{n} {st'} {errStr e}"
+    | _, _ => badArgs
+  | "unq", [] => let (o, e) := unquote b; s!"{hexOfBytes o} {errStr e}"
+  | "hex4", [] => match parseHexUint16 b with
+    | some v => s!"{v} 1"
+    | none => "0 0"
+  | "esc16", [l] => match b01 l with
+    | some l => boolStr (hasEscapedUTF16Prefix b l)
+    | _ => badArgs
+  | "trimws", [] => hexOfBytes (trimSuffixWhitespace b)
+  | "trimstr", [] => hexOfBytes (trimSuffixString b)
+  | "trimb", [c] => match c.toNat? with
+    | some c => hexOfBytes (trimSuffixByte b (UInt8.ofNat c))
+    | _ => badArgs
+  | "valid", [u, d] => match b01 u, b01 d with
+    | some u, some d =>
+      let (n, e) := validText ⟨u, d⟩ b
+      if e == .ok then "ok" else s!"E {errStr e} {n}"
+    | _, _ => badArgs
+  | "stream", [u, d] => match b01 u, b01 d with
+    | some u, some d =>
+      let (cnt, off, e) := stream ⟨u, d⟩ b
+      s!"{cnt} {errStr e} {off}"
+    | _, _ => badArgs
+  | "value", [u, d, depth] => match b01 u, b01 d, depth.toNat? with
+    | some u, some d, some depth =>
+      let (n, e) := consumeValue ⟨u, d⟩ (fuelFor b) depth b
+      s!"{n} {errStr e}"
+    | _, _, _ => badArgs
+  | _, _ => badArgs
+
+def allOps : List (String × List String) :=
+  [("ws", []), ("lit", []), ("sstr", []), ("str", ["0"]), ("str", ["1"]), ("snum", []), ("num", []), ("unq", []),
+   ("valid", ["0", "0"]), ("valid", ["0", "1"]), ("valid", ["1", "0"]), ("valid", ["1", "1"]),
+   ("stream", ["0", "0"]), ("stream", ["0", "1"]), ("stream", ["1", "0"]), ("stream", ["1", "1"])]
+
+/-- `vs`: the eight validator ops only (for very large inputs). -/
+def vsOps : List (String × List String) := allOps.drop 8
 
 def handle (op : String) (args : List String) : String :=
-  match op, args with
-  | _, _ => "ERR unimplemented"
+  match args.getLast? with
+  | none => badArgs
+  | some h =>
+    match bytesOfHex h with
+    | none => badArgs
+    | some b =>
+      let init := args.dropLast
+      match op, init with
+      | "all", [] => " | ".intercalate (allOps.map (fun (o, a) => handleB o a b))
+      | "vs", [] => " | ".intercalate (vsOps.map (fun (o, a) => handleB o a b))
+      | _, _ => handleB op init b
 
 end JsonV.Oracle.Wire
